@@ -320,30 +320,31 @@ def wl_read(wl):
 # --------------------------------------------------------------------------
 # one connection object of each of the four kinds, sitting on a scripted fake socket
 
-def make_conn(kind, sends, recvs, hs=(), wl=None, tymth=None, world=None):
+def make_conn(kind, sends, recvs, hs=(), wl=None, tymth=None, world=None, bs=None):
     """returns (obj, fakesock).  Clients go through the real open()/accept() path via the patched socket name."""
     with nowrap():
-        return _make_conn(kind, sends, recvs, hs, wl, tymth, world)
+        return _make_conn(kind, sends, recvs, hs, wl, tymth, world, bs)
 
 
-def _make_conn(kind, sends, recvs, hs, wl, tymth, world):
+def _make_conn(kind, sends, recvs, hs, wl, tymth, world, bs=None):
+    kw = {} if bs is None else {"bs": bs}
     clienting, serving, TClientTls, TRemoterTls = classes()
     world = world or World()
     tls = is_tls(kind)
     if kind in ("remoter", "remotertls"):
         s = world.new(sends=sends, recvs=recvs, hs=hs, tls=tls, ca=("127.0.0.1", 40001), ha=("127.0.0.1", 56000))
         if kind == "remoter":
-            obj = serving.Remoter(ha=s.ha, ca=s.ca, cs=s, wl=wl, tymth=tymth)
+            obj = serving.Remoter(ha=s.ha, ca=s.ca, cs=s, wl=wl, tymth=tymth, **kw)
         else:
-            obj = TRemoterTls(ha=s.ha, ca=s.ca, cs=s, wl=wl, tymth=tymth, context=shared_context())
+            obj = TRemoterTls(ha=s.ha, ca=s.ca, cs=s, wl=wl, tymth=tymth, context=shared_context(), **kw)
             obj.handshake()   # scripted: first hs entry
         return obj, s
     mod = _SockMod(world, tls=tls, ha=("127.0.0.1", 56000), client_scripts=[(list(sends), list(recvs), list(hs))])
     with patched(clienting, socket=mod):
         if kind == "client":
-            obj = clienting.Client(ha=("127.0.0.1", 56000), wl=wl, tymth=tymth)
+            obj = clienting.Client(ha=("127.0.0.1", 56000), wl=wl, tymth=tymth, **kw)
         else:
-            obj = TClientTls(ha=("127.0.0.1", 56000), wl=wl, tymth=tymth, context=shared_client_context(), certedhost="localhost")
+            obj = TClientTls(ha=("127.0.0.1", 56000), wl=wl, tymth=tymth, context=shared_client_context(), certedhost="localhost", **kw)
         obj.reopen()
         obj.serviceConnect()
     return obj, world.socks[-1]
@@ -464,10 +465,11 @@ def run_conn(case, with_hards=False):
     """case = (kind, wl, ops, sends, recvs); ops: ("tx", bytes) | ("ss",) | ("sr",) | ("svc",) | ("rst",) peer resets
     observation = (steps, final): steps[i] = (status, |kacc|, |txbs|, |rxbs|, cutoff),
     final = (txbs, rxbs, kacc, kdel, wireTx|None, wireRx|None, cutoff)"""
-    kind, use_wl, ops, sends, recvs = case
+    kind, use_wl, ops, sends, recvs = case[:5]
+    bs = case[5] if len(case) > 5 else None   # the object's .bs buffer size (None = the class default, 8096)
     wl = make_wl() if use_wl else None
     try:
-        obj, s = make_conn(kind, sends, recvs, [("ok",)] if is_tls(kind) else [], wl=wl)
+        obj, s = make_conn(kind, sends, recvs, [("ok",)] if is_tls(kind) else [], wl=wl, bs=bs)
         steps = []
         hards_at = []
         for op in ops:
